@@ -163,7 +163,11 @@ fn main() {
                         if !sched::linearizable(&case, &|| sched::apply_setup(&setup), &outcome) {
                             let ws = sched::windows(&outcome.steps, &programs);
                             let only_c03 = programs.iter().flatten().all(|f| matches!(f[1], 0x00 | 0x01 | 0x04));
-                            viols.push((start, ops.len(), if only_c03 { vec!["C03", "C04"] } else { vec!["C04"] },
+                            let mut props: Vec<&'static str> = if only_c03 { vec!["C03", "C04"] } else { vec!["C04"] };
+                            if only_c03 {
+                                props.extend(sched::also_broken(&programs, &outcome));
+                            }
+                            viols.push((start, ops.len(), props,
                                 format!("not linearizable: calls {:?} -> {} ; classes [{}]", outcome.steps, sched::fmt_results(&outcome.results), ws.join(","))));
                         }
                     }
